@@ -373,9 +373,12 @@ mod if_alloc {
                 let mut_self: &mut ChannelReceiveFuture<MutexType, T> =
                     unsafe { Pin::get_unchecked_mut(self) };
 
+                // The handle stays inside the future while the channel is
+                // called: the call can unwind (a `Waker::clone` that panics),
+                // and `Drop` needs the handle to unlink the wait node.
                 let channel = mut_self
                     .channel
-                    .take()
+                    .as_ref()
                     .expect("polled ChannelReceiveFuture after completion");
 
                 let poll_res = unsafe {
@@ -385,8 +388,6 @@ mod if_alloc {
                 if poll_res.is_ready() {
                     // A value was available
                     mut_self.channel = None;
-                } else {
-                    mut_self.channel = Some(channel)
                 }
 
                 poll_res
@@ -468,9 +469,12 @@ mod if_alloc {
                 let mut_self: &mut ChannelSendFuture<MutexType, T> =
                     unsafe { Pin::get_unchecked_mut(self) };
 
+                // The handle stays inside the future while the channel is
+                // called: the call can unwind (a `Waker::clone` that panics),
+                // and `Drop` needs the handle to unlink the wait node.
                 let channel = mut_self
                     .channel
-                    .take()
+                    .as_ref()
                     .expect("polled ChannelSendFuture after completion");
 
                 let send_res = unsafe {
@@ -480,6 +484,7 @@ mod if_alloc {
                 match send_res.0 {
                     Poll::Ready(()) => {
                         // Value has been transmitted or channel was closed
+                        mut_self.channel = None;
                         match send_res.1 {
                             Some(v) => {
                                 // Channel must have been closed
@@ -488,10 +493,7 @@ mod if_alloc {
                             None => Poll::Ready(Ok(())),
                         }
                     }
-                    Poll::Pending => {
-                        mut_self.channel = Some(channel);
-                        Poll::Pending
-                    }
+                    Poll::Pending => Poll::Pending,
                 }
             }
         }
